@@ -13,7 +13,7 @@ from collections import deque
 
 import numpy as np
 
-from .. import alpha, core, gutil, lib
+from .. import alpha, core, gutil, lib, numapi
 from ..gutil import TOL, close, key_of, maxabs, rep_tag
 
 LEVEL = "model_checking"
@@ -159,6 +159,9 @@ def explore_config(case):
             res.fail(site=name + ".product", clause="associativity", cls="%s;%s;%s" % (rep_tag(ex), rep_tag(ey), rep_tag(ez)),
                      detail=dict(X=ex["p"], Y=ey["p"], Z=ez["p"], err=er), sub="config", case=case)
 
+    # ---- direct numeric use of the API, object reuse, argument mutation (see numapi) -------------------
+    sel = alpha.reduced(elems, 24 if not is_dp else 10)
+    numapi.check_group(res, B, [e["p"] for e in sel], [], case, "config", ("product", "inverse", "to_Matrix"))
     # ---- words: BFS over {X*g, g*X, X^-1} ---------------------------------------------------------
     gens = _word_generators(elems, M, I, 6 if not is_dp else 4)
     words_bfs(res, name, B, L, gens, e_id, depth, case)
